@@ -147,8 +147,12 @@ def _gen_settings(rng, hname):
             s["version"] = 1
         return s
     if base == "scrypt":
-        return {"salt": enc(bytes(rng.getrandbits(8) for _ in range(rng.choice([0, 1, 8, 16])))),
-                "rounds": rng.choice([1, 2, 3, 4]), "block_size": rng.choice([1, 2, 8]), "parallelism": rng.choice([1, 2])}
+        salt = enc(bytes(rng.getrandbits(8) for _ in range(rng.choice([0, 1, 8, 16]))))
+        if rng.random() < 0.06:
+            # wide settings: little work (ln=1) but many / large blocks -- the memory estimate handed to hashlib.scrypt matters
+            r, p = rng.choice([(8, 258), (8, 300), (32, 66), (32, 80), (64, 40), (1, 2100)])
+            return {"salt": salt, "rounds": 1, "block_size": r, "parallelism": p}
+        return {"salt": salt, "rounds": rng.choice([1, 2, 3, 4]), "block_size": rng.choice([1, 2, 8]), "parallelism": rng.choice([1, 2])}
     raise AssertionError(hname)
 
 
@@ -359,6 +363,22 @@ class _World:
                     ctx.check(False, "C03", "backend-error-without-fault", f"{where}: {hname} backend={backend} raised {out[2]}",
                               exc=out[1], **attrs)
                 return
+            if ref is None and fam == "scrypt" and hname == "scrypt":
+                # an independent reference for scrypt: hashlib.scrypt called directly with ample memory
+                import base64
+                import hashlib
+
+                st = {k: dec(v) for k, v in key["settings"].items()}
+                try:
+                    dg = hashlib.scrypt(sb, salt=st["salt"], n=1 << st["rounds"], r=st["block_size"], p=st["parallelism"], maxmem=1 << 30, dklen=32)
+                    b64 = lambda b: base64.b64encode(b).decode("ascii").rstrip("=")
+                    ref = ("ok", f"$scrypt$ln={st['rounds']},r={st['block_size']},p={st['parallelism']}${b64(st['salt'])}${b64(dg)}")
+                    self.ref[ki] = ref
+                    self.ref_backend[ki] = "hashlib-direct"
+                    self.compared_backends[ki] = {"hashlib-direct"}
+                    ctx.probe("scrypt_reference_direct")
+                except Exception:
+                    ref = None
             if ref is None:
                 self.ref[ki] = out[:2]
                 self.ref_backend[ki] = backend
